@@ -42,6 +42,12 @@ pub fn oracle(case: &SpCase, res: &SpResult) -> (Option<(String, String)>, Vec<&
     }
 
     let mut obs = SenderObs::new(first, case.peer_wnd, case.sock.min_payload());
+    {
+        let mut cum = 0u64;
+        for a in &res.app {
+            if let crate::sim::app::AppEv::Wrote(n) = a.ev { cum += n as u64; obs.writes.push((a.t_us, cum)); }
+        }
+    }
     let app_times: BTreeSet<u64> = res.app.iter().filter(|a| matches!(a.ev, AppEv::Wrote(_) | AppEv::ShutdownOk | AppEv::WriterDropped)).map(|a| a.t_us).collect();
     let max_tx = 1 + case.sock.max_retx as usize;
     let mut last_rx_t: Option<u64> = None;
@@ -234,7 +240,9 @@ pub fn oracle(case: &SpCase, res: &SpResult) -> (Option<(String, String)>, Vec<&
                     // one segment per RTO: while a timeout chain is in progress no other data
                 } else if let Some((ck, _, _)) = &chain {
                     if !obs.st.poss_recovery && !obs.prev.poss_recovery && !ambiguous && !app_times.contains(&r.t_us) {
-                        let probe_expired = obs.segs.get(ck).is_some_and(|g| g.lens.windows(2).any(|w| w[0] != w[1]));
+                        // (a probe that expired is re-cut: usually shorter; with the same length when the peer's own
+                        // payloads have meanwhile proven that size — then only the number of its transmissions tells)
+                        let probe_expired = obs.segs.get(ck).is_some_and(|g| g.lens.windows(2).any(|w| w[0] != w[1]) || (g.first_payload.len() > g.mss_at_first && g.lens.len() >= case.sock.probe_retx as usize + 2));
                         if !probe_expired {
                             viol!("new-data-during-rto", "log #{}: new data seq {} sent while the timeout chain of seq {} is in progress and nothing was delivered in between", r.idx, p.seq, first.wrapping_add(*ck as u16));
                         }
